@@ -71,6 +71,9 @@ def run_circular_binseg(
         max_interval_length,
         growth_factor,
     )
+    # Intervals shorter than min_segment_length + 2 hold no anomaly strictly inside.
+    long_enough = ends - starts >= min_segment_length + 2
+    starts, ends = starts[long_enough], ends[long_enough]
     score.fit(X)
 
     anomaly_scores = np.zeros(starts.size)
@@ -232,6 +235,9 @@ class CircularBinarySegmentation(CollectiveAnomalyDetector):
             self.max_interval_length,
             self.growth_factor,
         )
+        if scores.size == 0:
+            # No interval can hold an anomaly: nothing to tune on or to detect.
+            return np.inf
         return np.quantile(scores, 1 - self.level)
 
     @staticmethod
